@@ -92,3 +92,16 @@ SPECS['C02'] = {
     'thorough': [J('c02', 'fast', srcs=SREF), J('c02', 'asan', srcs=SREF), J('c02', 'amd64', srcs=SREF)],
     'budget': {'quick': 150, 'thorough': 1500},
 }
+
+SPECS['C12'] = {
+    'level': 'exploration',
+    'technique': 'exhaustive crossing of a coordinate/scalar value alphabet with every import container and every octet prefix byte on the real code; reference model = BN curve-membership predicate',
+    'claim': 'Every point/key import path accepts a value from the alphabet only if the coordinates are below p and satisfy the curve equation (never infinity as a key or ECDH share), the imported object equals the input, private scalars are accepted iff in [1,n-2], a private-key container with a mismatching embedded public key is refused, and compress/decompress is the identity on k*G for k in 1..16, n-1.',
+    'trusted': 'OpenSSL BN for the curve predicates (SM2 explicit parameters; SM9 G1 y^2=x^3+5 and the G2 twist equation, self-tested on the generators)',
+    'rule': 'values: {valid, negated, y+1, (0,0), x=p, y=p, x/y=2^256-1, small x, x+p, y+p, (1,0), (0,1)} x containers {from_bytes, from_octets, point DER, SubjectPublicKeyInfo DER and PEM, certificate, request, ECPrivateKey and PKCS#8 embedded public key, SM2 ciphertext C1, ECDH peer share}; octet strings of lengths {1,33,64,65,66} x all 256 prefix bytes; 11 scalars around 0, n-2..n+1, p, 2^255, 2^256-1 through set_private_key and ECPrivateKey DER; SM9 G1 (8) and G2 (9) octet variants. distinct = (container, value).',
+    'bound': {'quick': 'whole alphabet', 'thorough': 'whole alphabet, + asan and amd64 builds'},
+    'assumptions': ['points outside the value alphabet are not covered', 'TLS key-exchange containers are exercised by the handshake checks (C09/C10)'],
+    'quick': [J('c12', 'fast', srcs=SREF), J('c12', 'asan', srcs=SREF)],
+    'thorough': [J('c12', 'fast', srcs=SREF), J('c12', 'asan', srcs=SREF), J('c12', 'amd64', srcs=SREF)],
+    'budget': {'quick': 100, 'thorough': 600},
+}
